@@ -461,7 +461,7 @@ fn run_b(v08: bool, n: i64, schedule: &[u8]) -> Obs {
           }
           loop {
             // steps inside take: [try_recv]* sdr.drained06 [drain pipe] sdr.drained08
-            //   ([try_take_one] dr.filled_one)* [try_take_one -> None, take from local cache]
+            //   ([try_take_one] dr.filled_one)* [try_take_one -> None] dr.filled [take from local cache]
             let got = dr.take_next_sample().expect("take");
             res.polls += 1;
             match got {
